@@ -23,6 +23,7 @@ type SimReader struct {
 	ErrAt       int   // >=0: Read fails once this many bytes were delivered
 	Err         error // the error for ErrAt (default ErrInjected)
 	ErrWithData bool  // deliver the final chunk together with the error (legal per io.Reader)
+	EOFWithData bool  // deliver the last bytes together with io.EOF instead of a separate (0, EOF) read (legal per io.Reader)
 	StallAt     int   // >=0: nothing more arrives once this many bytes were delivered, until Release
 	X           *X
 
@@ -152,6 +153,10 @@ func (r *SimReader) Read(p []byte) (int, error) {
 		if err == nil {
 			err = ErrInjected
 		}
+	}
+	if err == nil && r.EOFWithData && n > 0 && r.pos >= limit && limit == len(r.Data) {
+		r.fault("eof-with-data")
+		err = io.EOF
 	}
 	r.mu.Unlock()
 	return n, err
